@@ -70,7 +70,7 @@ func ulpClose32(a, b float32, rel float64) bool {
 // structural or beyond-quantisation difference, and whether any number was
 // inexact (coordInexact: a coordinate/angle/LOD; regInexact: a register
 // value, which happens legitimately for helper-computed gradient matrices).
-func compareCallLogs(direct, decoded []world.Op) (diff string, structural, coordInexact, rounded, regInexact, vbInexact bool) {
+func compareCallLogs(direct, decoded []world.Op, hiAt []bool) (diff string, structural, coordInexact, rounded, regInexact, vbInexact bool) {
 	if len(direct) != len(decoded) {
 		n := min(len(direct), len(decoded))
 		extra := "<nothing>"
@@ -116,6 +116,17 @@ func compareCallLogs(direct, decoded []world.Op) (diff string, structural, coord
 				continue
 			}
 			tol := math.Max(1.0/128+1.0/2048, math.Abs(x)/(1<<20))
+			if a.K == world.KSetLOD || (i < len(hiAt) && hiAt[i]) {
+				// not a low-resolution path coordinate: a LOD bound is a threshold,
+				// and a path started in high-resolution mode is not quantised at all
+				tol = math.Abs(x)/(1<<20) + 1e-37
+				if math.Abs(x-y) <= 1.0/128+1.0/2048 && diff == "" {
+					diff = fmt.Sprintf("call #%d %s: number %g arrives as %g although nothing may quantise it (a LOD bound, or a path started in high-resolution mode)", i, a.K, x, y)
+				}
+				if math.Abs(x-y) <= 1.0/128+1.0/2048 {
+					continue
+				}
+			}
 			if !(math.Abs(x-y) <= tol) {
 				return fmt.Sprintf("call #%d %s: number %g decoded as %g (beyond coordinate quantisation)", i, a.K, x, y), false, coordInexact, rounded, regInexact, vbInexact
 			}
@@ -355,6 +366,9 @@ func c07Run(ctx *Ctx, t *tape.Tape) *report.Violation {
 
 	m := &model.EncoderModel{}
 	sawIncr, nontrivial := false, false
+	// per delivered call: was its path started in high-resolution mode?
+	var hiAt []bool
+	hiNow, pathHi := false, false
 	var vb ivg.ViewBox
 	for i := range prog {
 		o := &prog[i]
@@ -368,7 +382,20 @@ func c07Run(ctx *Ctx, t *tape.Tape) *report.Violation {
 			_ = msg
 			return skip("Encoder")
 		}
+		n0 := len(d1.Calls)
 		world.Apply(t3, o)
+		switch o.K {
+		case world.KSetHiRes:
+			hiNow = o.Incr
+		case world.KReset:
+			hiNow = false
+		}
+		for _, c := range d1.Calls[n0:] {
+			if c.K == world.KStartPath {
+				pathHi = hiNow
+			}
+			hiAt = append(hiAt, pathHi)
+		}
 		if o.K == world.KReset {
 			vb = o.VB
 		}
@@ -440,7 +467,7 @@ func c07Run(ctx *Ctx, t *tape.Tape) *report.Violation {
 		return fail(viol("C07", "pipeline", "the bytes of a well-formed program do not decode: %v", derr))
 	}
 	_ = decode.Decode(d2, final)
-	diff, structural, coordInexact, rounded, regInexact, vbInexact := compareCallLogs(d1.Calls, d2.Calls)
+	diff, structural, coordInexact, rounded, regInexact, vbInexact := compareCallLogs(d1.Calls, d2.Calls, hiAt)
 	mode := 0
 	switch {
 	case structural:
